@@ -1,5 +1,43 @@
-(* STUB: Impl model of spcr.rs -- to be written *)
-From Coq Require Import NArith List.
-From ACPI Require Import Lib.Bytes Lib.Sx Lib.Machine Impl.Checksum Impl.Table Impl.Fields Impl.Run.
+(* Impl model of spcr.rs *)
+From Coq Require Import NArith List Bool.
+From ACPI Require Import Lib.Bytes Lib.Sx Lib.Machine Impl.Checksum Impl.Table Impl.Fields Impl.Run Impl.Madt.
 Import ListNotations.
-Definition spcr_case (md : mode) (c : sx) : list ev := [EvPanic].
+Open Scope N_scope.
+
+Definition EMPTY_NAMESPACE : list N := [46; 0].       (* [b'.', 0] *)
+
+(* SerialPortInfo::sbi() (packed, 52 bytes), fields in declaration order; gas::GAS::default() is all zero *)
+Definition serial_port_info_sbi : flds :=
+  [F 1 0x15;                          (* interface_type = RiscvSbi *)
+   F 1 0; F 1 0; F 1 0;               (* reserved0 *)
+   F 1 0; F 1 0; F 1 0; F 1 0; F 8 0; (* base_address: GAS { space, bit width, bit offset, access size, address } *)
+   F 1 0; F 1 0; F 4 0;               (* interrupt_type, irq, gsi *)
+   F 1 0; F 1 0; F 1 0; F 1 0; F 1 0; F 1 0;   (* baud_rate parity stop_bits flow_control terminal_type language *)
+   F 2 0xffff; F 2 0xffff;            (* pci_device_id, pci_vendor_id *)
+   F 1 0; F 1 0; F 1 0; F 4 0; F 1 0; (* pci_bus pci_device pci_function pci_flags pci_segment *)
+   F 4 0; F 4 0;                      (* clock_frequency precise_baud *)
+   F 2 2;                             (* namespace_string_len *)
+   F 2 (cast U16 (36 + 52))].         (* namespace_string_offset = (TableHeader::len() + Self::len()) as u16 *)
+
+Record spcr := { sp_hdr : hdr; sp_len : N; sp_cks : N; sp_info : flds; sp_ns : list N }.
+
+(* to_aml_bytes: header.as_bytes(), info.as_bytes(), namespace_string *)
+Definition spcr_bytes (s : spcr) : list N :=
+  hdr_bytes (sp_hdr s) (sp_len s) (sp_cks s) ++ ser_flds (sp_info s) ++ sp_ns s.
+
+(* SPCR::sbi: header { "SPCR", length = (36 + 52 + 2) as u32, revision 4 };
+   cksum.append(header); cksum.append(sbi.as_bytes()); cksum.append(&EMPTY_NAMESPACE) *)
+Definition spcr_new (c : sx) : option spcr :=
+  match c with
+  | SL [o; t; r] =>
+      do h <- sx_hdr [83; 80; 67; 82] 4 o t r;          (* "SPCR" *)
+      let len := cast U32 (36 + 52 + 2) in
+      let ck := ck_append (ck_append (ck_append 0 (hdr_bytes h len 0)) (ser_flds serial_port_info_sbi)) EMPTY_NAMESPACE in
+      Some {| sp_hdr := h; sp_len := len; sp_cks := ck_value ck; sp_info := serial_port_info_sbi; sp_ns := EMPTY_NAMESPACE |}
+  | _ => None
+  end.
+
+Definition spcr_step (md : mode) (s : spcr) (o : sx) : option (spcr * list ev) := None.
+
+Definition spcr_case (md : mode) (c : sx) : list ev :=
+  run_history (fun s => Some (spcr_bytes s)) (spcr_step md) spcr_new c.
